@@ -6,6 +6,7 @@ pub struct ElementAt<Item>
 where
   Item: Clone + Send + Sync,
 {
+  skip_op: operators::Skip<Item>,
   take_op: operators::Take<Item>,
 }
 
@@ -14,11 +15,15 @@ where
   Item: Clone + Send + Sync,
 {
   pub fn new(count: usize) -> ElementAt<Item> {
+    // the count-th item (1-based) and nothing else: skip(count - 1).take(1); a source
+    // that ends earlier yields no item (take(count).last() yielded its last one)
     ElementAt {
-      take_op: operators::Take::<Item>::new(count),
+      skip_op: operators::Skip::<Item>::new(count.saturating_sub(1)),
+      take_op: operators::Take::<Item>::new(count.min(1)),
     }
   }
   pub fn execute(&self, source: Observable<'a, Item>) -> Observable<'a, Item> {
+    let skip_op = self.skip_op.clone();
     let take_op = self.take_op.clone();
 
     Observable::<Item>::create(move |s| {
@@ -30,8 +35,7 @@ where
       let sctl_complete = sctl.clone();
 
       take_op
-        .execute(source)
-        .last()
+        .execute(skip_op.execute(source))
         .inner_subscribe(sctl.new_observer(
           move |_, x| {
             sctl_next.sink_next(x);
